@@ -87,6 +87,15 @@ type Kernel struct {
 	firstAt   []string // "base@point" in order of first release inside the window
 	firstSeen map[string]bool
 
+	// Force, when set, forces an order inside the pair-coverage window: goroutines parked at
+	// Force.Second stay parked until Force.First was released in the window, or until Force.Max of
+	// fake time has passed since the first of them parked there (the order is then given up as
+	// infeasible in this run).
+	Force        *ForceSpec
+	forceSince   time.Duration
+	ForceEngaged bool
+	ForceGaveUp  bool
+
 	// Observer, when set, is told about every release (used by oracles that watch hook points).
 	Observer func(role, point string, now time.Duration)
 	// Hold lets a property delay a goroutine at a point: return true to keep it parked for now.
@@ -291,6 +300,14 @@ func mixInt(h uint64, v int64) uint64 {
 	return h
 }
 
+// ForceSpec names two hook points ("base@point") of different roles and the longest fake time the
+// second is kept waiting for the first.
+type ForceSpec struct {
+	First  string        `json:"first"`
+	Second string        `json:"second"`
+	Max    time.Duration `json:"max_ns"`
+}
+
 // Event folds a harness-level observation (transport read/write, oracle observation) into the
 // trace digest. Must only be called from a goroutine in its released window.
 func (k *Kernel) Event(kind string, v int64) {
@@ -358,6 +375,35 @@ func (k *Kernel) Run(done <-chan struct{}, deadline, settle time.Duration) Outco
 					continue
 				}
 				kept = append(kept, g)
+			}
+			enabled = kept
+		}
+		if f := k.Force; f != nil && k.pairOn && !k.firstSeen[f.First] && !k.ForceGaveUp && len(enabled) > 0 {
+			kept := enabled[:0:0]
+			for _, g := range enabled {
+				if g.Base+"@"+g.Point != f.Second {
+					kept = append(kept, g)
+
+					continue
+				}
+				if !k.ForceEngaged {
+					k.ForceEngaged = true
+					k.forceSince = now
+					k.Holds++
+					k.HoldTotal += f.Max
+					max := f.Max
+					go func() {
+						time.Sleep(max)
+						select {
+						case k.wake <- struct{}{}:
+						default:
+						}
+					}()
+				}
+				if now-k.forceSince >= f.Max {
+					k.ForceGaveUp = true
+					kept = append(kept, g)
+				}
 			}
 			enabled = kept
 		}
